@@ -50,10 +50,10 @@ func (restart) Runs(tier string) int64 {
 
 func (restart) Meta() core.EngineMeta {
 	return core.EngineMeta{
-		Rule:        "Reference streams (PAT before PMTs; multi-section PSI units so that parsed sections are buffered at some points; PES units longer than 16 packets; a crafted family in which one PID is mid-unit after exactly 16k packets while another PID returns a datum per packet, the only alignment at which a stale accumulator would continue the counter silently) are read by the real Demuxer on a seekable SimReader with a seeded chunk plan, explicit or auto-detected size, a quarter of them created with a stateless PacketSkipper and some with an observing PacketsParser (the fresh reference Demuxer gets the same options). Even run indices Rewind after EVERY number j of NextData calls (0..total; exhaustive per stream); odd indices run seeded scripts of repeated rewinds with NextPacket/NextData/mixed consumption. After the last Rewind the complete sequence must equal a fresh Demuxer's. evaluations = rewind experiments; distinct = (state class at the rewind: mid-unit PIDs, buffered sections, counter alignment; API; size mode); non-trivial = the rewind happened after at least one call. One scenario in twelve carries the stream in 204-byte packets with auto-detection, which fails on every call after consuming input: there only Rewind's own promise (offset 0, no error, reader back at 0) is judged.",
+		Rule:        "Reference streams (PAT before PMTs; multi-section PSI units so that parsed sections are buffered at some points; PES units longer than 16 packets; a crafted family in which one PID is mid-unit after exactly 16k packets while another PID returns a datum per packet, the only alignment at which a stale accumulator would continue the counter silently) are read by the real Demuxer on a seekable SimReader with a seeded chunk plan, explicit or auto-detected size, a quarter of them created with a stateless PacketSkipper and some with an observing PacketsParser (the fresh reference Demuxer gets the same options). Even run indices Rewind after EVERY number j of NextData calls (0..total; exhaustive per stream); odd indices run seeded scripts of repeated rewinds with NextPacket/NextData/mixed consumption, one in six of them a long history of 255 to 513 rewinds (a first pass that stops mid-stream - in the crafted family with exactly 16 or 32 packets of the long unit pending - then probe passes of zero to two NextData calls). After the last Rewind the complete sequence must equal a fresh Demuxer's. evaluations = rewind experiments; distinct = (state class at the rewind: mid-unit PIDs, buffered sections, counter alignment; API; size mode); non-trivial = the rewind happened after at least one call. One scenario in twelve carries the stream in 204-byte packets with auto-detection, which fails on every call after consuming input: there only Rewind's own promise (offset 0, no error, reader back at 0) is judged.",
 		Real:        []string{"astits.Demuxer and everything below it"},
 		Stub:        []string{"refts reference multiplexer", "SimReader (seekable, short reads per plan)"},
-		FaultKinds:  []string{"rewind-mid-unit", "rewind-with-buffered-sections", "rewind-cc-aligned", "rewind-repeated", "rewind-after-nextpacket", "rewind-auto-size"},
+		FaultKinds:  []string{"rewind-mid-unit", "rewind-with-buffered-sections", "rewind-cc-aligned", "rewind-repeated", "rewind-256-times", "rewind-after-nextpacket", "rewind-auto-size"},
 		Assumptions: []string{"streams whose PAT precedes their PMTs (the program map is deliberately kept across rewinds)"},
 		Levels:      map[string]string{"C20": "fault_enumeration"},
 	}
@@ -136,6 +136,27 @@ func (restart) Generate(r *core.PRNG, tier string, idx int64) any {
 	}
 	if idx%2 == 0 {
 		sc.Enum = true
+		return sc
+	}
+	if r.Chance(1, 5) {
+		// Long histories: hundreds of rewinds on one Demuxer. The first pass stops somewhere in the
+		// stream (in the crafted family after 17 or 33 NextData calls: exactly 16k packets of the
+		// long unit are pending then), the following ones are probe passes that read nothing or
+		// only the first data, the last one is compared with a fresh Demuxer. The counts sit
+		// around 256 and 512.
+		first := r.Intn(60)
+		if r.Chance(1, 2) {
+			sc.Model = craftedAligned(r)
+			if r.Chance(3, 4) {
+				first = 1 + 16*r.Range(1, 2)
+			}
+		}
+		sc.Steps = append(sc.Steps, RestartStep{N: first, API: "data"})
+		total := []int{256, 256, 512, 255, 257, 300, 513}[r.Intn(7)]
+		probe := []int{0, 1, 1, 2}[r.Intn(4)]
+		for i := 1; i < total; i++ {
+			sc.Steps = append(sc.Steps, RestartStep{N: probe, API: "data"})
+		}
 		return sc
 	}
 	n := r.Range(1, 4)
@@ -309,6 +330,9 @@ func (restart) Execute(scAny any, keepLog bool) *core.Outcome {
 			if si > 0 {
 				out.Fire("rewind-repeated")
 			}
+			if si == 255 {
+				out.Fire("rewind-256-times")
+			}
 		}
 		res := pullData(dmx, sr, out.Log, npk*4+16)
 		var got []string
@@ -329,7 +353,7 @@ func (restart) Execute(scAny any, keepLog bool) *core.Outcome {
 			default:
 				sig = "altered-data"
 			}
-			out.Violate("C20", cls, sig, "after Rewind (steps %v, size option %d) the delivered sequence differs from a fresh Demuxer's: %s", steps, cfg.PacketSize, msg)
+			out.Violate("C20", cls, sig, "after Rewind (steps %v, size option %d) the delivered sequence differs from a fresh Demuxer's: %s", stepsBrief(steps), cfg.PacketSize, msg)
 		}
 		if len(out.Violations) > pre {
 			out.Narrow(pre, &RestartScenario{Model: sc.Model, Demux: sc.Demux, Steps: steps, Skipper: sc.Skipper, Observe: sc.Observe, K: sc.K, AutoFail: sc.AutoFail})
@@ -347,6 +371,13 @@ func (restart) Execute(scAny any, keepLog bool) *core.Outcome {
 	}
 	out.Steps = out.Evals
 	return out
+}
+
+func stepsBrief(steps []RestartStep) string {
+	if len(steps) <= 8 {
+		return fmt.Sprint(steps)
+	}
+	return fmt.Sprintf("%v ... %d steps in all, the last %v", steps[:3], len(steps), steps[len(steps)-1])
 }
 
 func (restart) Shrink(scAny any) []any {
